@@ -2,7 +2,7 @@
    A page is a SmartList of node identities, sections are registered views (C12 says where
    get_sections puts them, C13 how views behave); every Wikicode edit call is a finite
    sequence of list operations (WikiEdit.v).  Statements only. *)
-From MW Require Import PyBase PyList SmartList SmartListProofs WikiEdit WikiEditProofs.
+From MW Require Import PyBase PyList SmartList SmartListProofs WikiEdit WikiEditProofs SmartListEnd.
 Local Open Scope Z_scope.
 
 Section C11.
@@ -54,6 +54,19 @@ Proof. exact (sections_remain_views_lemma eqb sortf sortf_length). Qed.
 
 End C11.
 
+(* page.append / extend: the end of the page is a place that every section running to the end of the page contains - such a
+   section (open-ended, or with an explicit stop equal to the page's length) ends at the end of the page afterwards as well, so
+   it shows the appended nodes; a non-empty section keeps its start *)
+Theorem C11_append_reaches_sections_at_the_end : forall (A : Type) (st : @sl A) p xs k v,
+  (p < length (stores st))%nat -> nth_error (views st) k = Some v -> v_store v = p ->
+  V_stop st v = zlen (store st p) ->
+  let st' := P_extend st p xs in
+  exists v', nth_error (views st') k = Some v' /\ v_store v' = p /\
+             V_stop st' v' = zlen (store st' p) /\ zlen (store st' p) = zlen (store st p) + zlen xs /\
+             (v_start v < zlen (store st p) -> v_start v' = v_start v).
+Proof. exact (@extend_reaches_views_at_the_end). Qed.
+
+Print Assumptions C11_append_reaches_sections_at_the_end.
 Print Assumptions C11_edit_through_section.
 Print Assumptions C11_edit_through_page.
 Print Assumptions C11_other_sections.
